@@ -374,7 +374,30 @@ func (fr *frame) visitInstr(instr ssa.Instruction) bool /*returned*/ {
 		panic(engineError{"phi outside block entry"})
 
 	case *ssa.Select:
-		panic(pathAbort{"select statement"})
+		m.noSpec("select")
+		var cases []selCase
+		for _, st := range instr.States {
+			ch, _ := fr.get(st.Chan).(*chanObj)
+			c := selCase{send: st.Dir == types.SendOnly, ch: ch}
+			if c.send {
+				c.val = fr.get(st.Send)
+			} else {
+				c.elem = st.Chan.Type().Underlying().(*types.Chan).Elem()
+			}
+			cases = append(cases, c)
+		}
+		idx, rv, rok := m.sched.selectStmt(fr.g, cases, instr.Blocking)
+		res := tuple{BV(uint64(int64(idx)), 64), Bool(rok)}
+		for i, st := range instr.States {
+			if st.Dir == types.RecvOnly {
+				if i == idx {
+					res = append(res, rv)
+				} else {
+					res = append(res, zero(st.Chan.Type().Underlying().(*types.Chan).Elem()))
+				}
+			}
+		}
+		fr.env[instr] = res
 
 	default:
 		panic(pathAbort{fmt.Sprintf("unsupported instruction %T", instr)})
